@@ -20,7 +20,8 @@ from harness import clients, clientsim
 ID = 'C08'
 LEVEL = 'model_checking'
 PEER = ['own', 'own-exception', 'stale', 'stale+own', 'other-unit', 'unit-0', 'unit-255', 'other-function', 'nothing']
-REQS = ['read-registers', 'read-coils', 'write-single', 'write-registers', 'mask-write', 'diagnostic']
+REQS = ['read-registers', 'read-coils', 'write-single', 'write-registers', 'mask-write', 'diagnostic',
+        'read-discrete', 'read-input', 'write-coil', 'write-coils', 'read-write-registers', 'diagnostic-0E', 'device-information']
 HISTORIES = {'none': (), 'one-ok': ('write-single',), 'one-late': (('read-registers', 'late'),),
              'ok+late': ('write-single', ('read-registers', 'late'))}
 
@@ -126,7 +127,7 @@ def run(tier, seed):
                 coverage=dict(
                     rule='state = execution prefix (history of environment choices) of the real client; transition = one environment decision; '
                          'all executions with <= %d deviations per specification; non-trivial = executions with at least one deviation' % (2 if tier == 'quick' else 3),
-                    bounds='6 client kinds x 6 request types x 4 histories (none, healthy, timed-out-with-late-reply, both) x transaction-id presets {0, 0xFFFE, 0xFFFF} '
+                    bounds='6 client kinds x 13 request types x 4 histories (none, healthy, timed-out-with-late-reply, both) x transaction-id presets {0, 0xFFFE, 0xFFFF} '
                            'x reply split {whole, after 3 bytes, byte-by-byte%s} x retry_on_invalid; peer menu %r'
                            % (', after 1/5/7/9 bytes' if tier == 'thorough' else '', PEER)),
                 assumptions=['frames count as received during a call when they became readable between its start and its end',
